@@ -384,6 +384,32 @@ func restart(id int, rng *rand.Rand) O {
 	return h.finish(id, "timer-restart", O{"n": n}, true)
 }
 
+// writeback: the timers machine's reported state is written back to the live crew through the
+// captain (as a host re-applying persisted state would); pending timers must still fire once.
+func writeback(id int, rng *rand.Rand) O {
+	h := newHarness(false)
+	n := 1 + rng.Intn(2)
+	for i := 0; i < n; i++ {
+		h.request("add", "t"+strconv.Itoa(i+1), true)
+	}
+	h.mu.Lock()
+	if m, have := h.shadow[sio.TimersMachine]; have && m.State != nil {
+		js, _ := json.Marshal(m.State)
+		var st interface{}
+		json.Unmarshal(js, &st)
+		h.rec.add(O{"ev": "hook", "point": "writeback", "u": 0})
+		r, err := h.c.ProcessMsg(h.ctx, map[string]interface{}{"to": "captain", "update": map[string]interface{}{sio.TimersMachine: map[string]interface{}{"state": st}}})
+		if err == nil {
+			h.fold(r)
+		}
+	}
+	h.mu.Unlock()
+	if rng.Intn(2) == 0 {
+		h.request("rem", "t1", true)
+	}
+	return h.finish(id, "timer-writeback", O{"n": n}, true)
+}
+
 func main() {
 	log.SetOutput(io.Discard)
 	switch os.Args[1] {
@@ -406,17 +432,20 @@ func main() {
 				out.write(replay(id, s.Sched))
 			}
 		}
-	case "stress", "restart":
+	case "stress", "restart", "writeback":
 		n, _ := strconv.Atoi(os.Args[2])
 		seed, _ := strconv.Atoi(os.Args[3])
 		rng := rand.New(rand.NewSource(int64(seed)))
 		out := newOut(os.Args[4])
 		defer out.close()
 		for id := 1; id <= n; id++ {
-			if os.Args[1] == "stress" {
+			switch os.Args[1] {
+			case "stress":
 				out.write(stress(id, rng))
-			} else {
+			case "restart":
 				out.write(restart(id, rng))
+			default:
+				out.write(writeback(id, rng))
 			}
 		}
 	}
